@@ -65,6 +65,7 @@ class MemTransport(asyncio.Transport):
         self.total_delivered = 0
         self.write_calls = 0
         self.on_deliver: Callable[[bytes], None] | None = None
+        self._close_pending = False  # close() called with unflushed writes: connection_lost() follows the flush
         self.burst = 1  # pieces handed to the peer back-to-back within one loop iteration (several reads per wake-up)
 
     # ---- bookkeeping
@@ -139,15 +140,19 @@ class MemTransport(asyncio.Transport):
             return
         self.closing = True
         self._ev("close")
-        # our protocol is told right away (asyncio: after the write buffer is handed to the kernel);
-        # bytes already written stay in flight and reach the peer before it reads EOF
-        self._finish()
+        # asyncio: connection_lost() is called once the write buffer has been flushed - at once when nothing is pending,
+        # and not before the peer has taken the pending bytes otherwise (never, if it has stopped reading)
+        if self.out and self.peer is not None and not self.peer.closed and not self.peer.lost_called:
+            self._close_pending = True
+        else:
+            self._finish()
         self._schedule_pump()
 
     def abort(self) -> None:
         if self.closed and not self.out:
             return
         self.closing = True
+        self._close_pending = False
         self._ev("abort")
         self.out.clear()
         self._finish()
@@ -159,6 +164,8 @@ class MemTransport(asyncio.Transport):
             return
         self.closed = True
         self.loop.call_soon(self._call_connection_lost, None)
+        if self.peer is not None:
+            self.peer._schedule_pump()  # the other side may be waiting to flush into a connection that is gone now
 
     def _send_eof(self) -> None:
         peer = self.peer
@@ -237,6 +244,9 @@ class MemTransport(asyncio.Transport):
             if not peer.reading_paused:
                 self._schedule_pump()
         elif self.closing:
+            if self._close_pending:
+                self._close_pending = False
+                self._finish()
             self._send_eof()
 
 
